@@ -19,7 +19,7 @@ EXTENDS {m}, Json
 VARIABLES c, h              \\* h = the history the interpreter assigns to case c (computed once per case)
 PInit == c \\in Cases /\\ h = Expected(c)
 PNext == UNCHANGED <<c, h>>
-Emit == PrintT("@@J@@" \\o ToJson([case |-> c, exp |-> h]))
+Emit == PrintT("@@J@@" \\o ToJson([case |-> c, exp |-> h, nsteps |-> [i \\in 1..Len(c.calls) |-> IF Packings(c.calls[i].m) = {{}} THEN 0 ELSE RunSteps(c.calls[i].m)]]))
 ASSUME PrintT("@@J@@" \\o ToJson([configspace |-> ConfigSpace]))
 {invs}
 ====
@@ -69,7 +69,7 @@ def judge(ctx: Ctx, wd, module: str, records: list[dict], *, timeout: int = 1200
         f = wd / f"obs_{module}_{off}.json"
         f.write_text(json.dumps(part))
         cfg = render_cfg(init_next=("BInit", "BNext"), invariants=["Judge"],
-                         constants={"RichSteps": 0, "SmallSteps": 0, "MultiCalls": 1, "MaxTicks": 1})   # Conforms does not use them
+                         constants={"RichSteps": 0, "SmallSteps": 0, "MultiCalls": 1, "LongEmits": 0, "MaxTicks": 1})   # Conforms does not use them
         r = run_tlc(wd, f"{module}_PObs", cfg, timeout=timeout, env={"OBS_FILE": str(f)}, cfg_name=f"{module}_pobs.cfg",
                     workers=12)
         ctx.add_tlc(f"{module}:{name}[{off}:{off + len(part)}]", r)
